@@ -11,6 +11,7 @@ import (
 	"flag"
 	"fmt"
 	"os"
+	"os/exec"
 	"path/filepath"
 	"runtime"
 	"sort"
@@ -65,6 +66,8 @@ type sitesReport struct {
 }
 
 var sites sitesReport
+
+var freeMode = os.Getenv("ZZSIM_FREE_DAEMONS") == "1"
 
 var determinismNote = "3 process seeds re-executed at GOMAXPROCS=1, event-log digests identical"
 
@@ -270,7 +273,7 @@ type agg struct {
 	found                                []*finding
 	sweepPairs, sweepPoints, sweepCold   int
 	numSites                             int
-	clockJumps, timersFired              int
+	clockJumps, timersFired, unowned     int
 	simNanos                             int64
 	stuck                                []string
 }
@@ -330,6 +333,7 @@ func (a *agg) add(p *procRun, pool []*c14sim.Key, eligible []int) {
 	a.preempts += r.Preempts
 	a.yields += r.Yields
 	a.numSites = r.NumSites
+	a.unowned += r.UnownedChoices
 	a.clockJumps += r.ClockJumps
 	a.timersFired += r.TimersFired
 	a.simNanos += r.SimNanos
@@ -507,8 +511,11 @@ func main() {
 		fatal("unknown tier %q", *tier)
 	}
 
+	if freeMode {
+		determinismNote = "degraded mode: library-started goroutines run natively, executions are not reproducible bit for bit"
+	}
 	// reduced determinism obligation: re-execute 3 process seeds at GOMAXPROCS=1 and compare digests
-	if len(a.found) == 0 {
+	if len(a.found) == 0 && !freeMode {
 		det := newAgg()
 		var procs []*procRun
 		for _, s := range detSeeds {
@@ -528,10 +535,10 @@ func main() {
 				determinismNote = "event logs depend on GOMAXPROCS; reproducible at a fixed setting"
 				continue
 			}
-			if len(sites.Unsupported) > 0 {
+			if len(sites.Unsupported) > 0 || r1.unowned+r2.unowned+a.unowned > 0 {
 				// the tree under test contains sources of nondeterminism the simulator does not own: replays
 				// of this tree may need repetition, but that is not a defect of the harness
-				fmt.Printf("note: process seed %d is not reproducible (%s / %s); the library uses constructs outside the simulator's control: %v\n", s, r1.digests[s], r2.digests[s], sites.Unsupported)
+				fmt.Printf("note: process seed %d is not reproducible (%s / %s); the library makes choices outside the simulator's control: %v, %d select statements with several ready cases / unordered map ranges\n", s, r1.digests[s], r2.digests[s], sites.Unsupported, r1.unowned+r2.unowned+a.unowned)
 				determinismNote = "not reproducible: the library uses constructs outside the simulator's control"
 				continue
 			}
@@ -590,7 +597,21 @@ func main() {
 	}
 	if len(a.stuck) > 0 {
 		for _, st := range a.stuck {
-			fmt.Println("INCONCLUSIVE: UNSUPPORTED-SYNC: tasks wait on channels that nothing inside the simulation serves:", st)
+			fmt.Println("note: UNSUPPORTED-SYNC: tasks wait on channels that nothing inside the simulation serves:", st)
+		}
+		if !freeMode {
+			// degrade: goroutines started by the library run natively, callers stay under the seeded scheduler
+			fmt.Println("note: repeating the exploration in degraded mode (library-started goroutines run natively; schedules of the callers are still seeded, replays may need repetition)")
+			cmd := exec.Command(os.Args[0], os.Args[1:]...)
+			cmd.Env = append(os.Environ(), "ZZSIM_FREE_DAEMONS=1")
+			cmd.Stdout, cmd.Stderr = os.Stdout, os.Stderr
+			err := cmd.Run()
+			if ee, ok := err.(*exec.ExitError); ok {
+				os.Exit(ee.ExitCode())
+			} else if err != nil {
+				fatal("%v", err)
+			}
+			os.Exit(0)
 		}
 		os.Exit(drv.ExitInconclusive)
 	}
